@@ -93,6 +93,16 @@ def emit_read(a, var, rng):
                 a.emit(("push", (1 << (8 * width)) - 1, width), "AND", 0, "MSTORE")
 
 
+def _src_shift(a, var, width):
+    """The value written into a field may itself be a part of a wider word: field = uintN(x >> j)."""
+    j = var.get("src_shift", 0)
+    if j and j + 8 * width <= 256:
+        if var.get("shift_style", "shr") == "shr":
+            a.emit(j, "SHR")
+        else:
+            a.emit(("push", 1 << j, None), "SWAP1", "DIV")
+
+
 def emit_write(a, var, rng):
     kind = var["kind"]
     if kind == "word":
@@ -118,7 +128,9 @@ def emit_write(a, var, rng):
         slot = var["slot"] if var["slot"] else ("push", 0, 1)
         for i, (off, width) in enumerate(var["fields"]):
             m = (1 << (8 * width)) - 1
-            a.emit(4 + 32 * (i % 6), "CALLDATALOAD", ("push", m, width), "AND")
+            a.emit(4 + 32 * (i % 6), "CALLDATALOAD")
+            _src_shift(a, var, width)
+            a.emit(("push", m, width), "AND")
             if off:
                 a.emit(("push", 1 << (8 * off), None), "MUL")
             if i:
@@ -133,7 +145,9 @@ def emit_write(a, var, rng):
             # old & ~(m << k)
             a.emit(slot, "SLOAD", ("push", evm.M256 ^ (m << (8 * off)), 32), "AND")
             # (v & m) * 2^k
-            a.emit(4 + 32 * (off % 4), "CALLDATALOAD", ("push", m, width), "AND")
+            a.emit(4 + 32 * (off % 4), "CALLDATALOAD")
+            _src_shift(a, var, width)
+            a.emit(("push", m, width), "AND")
             if off:
                 a.emit(("push", 1 << (8 * off), None), "MUL")
             a.emit("OR", slot, "SSTORE")
@@ -252,5 +266,7 @@ def random_ground_truth(rng, nvars=None, slot_pool=None, kinds=None):
             var["fields"] = random_fields(rng)
             var["shift_style"] = rng.choice(["shr", "div"])
             var["write_style"] = rng.choice(["per-field", "per-field", "single-left", "single-right"])
+            if rng.random() < 0.3:
+                var["src_shift"] = rng.choice([8, 64, 96, 128, 160])
         gt.append(var)
     return gt
